@@ -376,6 +376,37 @@ def flag_merge(ctx):
                 fq, what, meth), g_ok, f.node,
                 'global flags are not tool.global_* + tool.{}(gopts, '
                 'mode=global)'.format(meth))
+            # ... in that order (the same order compile_commands.json
+            # uses, C06): flags from the environment first, then the
+            # project's global options, so that a semantic option is not
+            # overridden by an earlier-intended environment flag
+            from . import c03 as _c03
+            order_ok = None
+            for e in fv:
+                x = Q.arg(e.call, 1, 'value')
+                if x is None or e.fn is not f:
+                    continue
+                if not (has(e.arg(1), 'global_' + (
+                        'libs' if what == 'libs' else 'flags'))):
+                    continue
+                ig = io = None
+                for i_, t in enumerate(_c03._terms(F, x, f)):
+                    a = F.atoms(t, f)
+                    if ig is None and has(a, 'global_' + (
+                            'libs' if what == 'libs' else 'flags')):
+                        ig = i_
+                    if io is None and any(
+                            meth + "(~, mode='global')" in z for z in a):
+                        io = i_
+                if ig is not None and io is not None:
+                    order_ok = ig < io if order_ok is None else (
+                        order_ok and ig < io)
+            if order_ok is not None:
+                ctx.ob(R, '{}|global-{}-order'.format(fq, what), order_ok,
+                       f.node, 'the project\'s global options are placed '
+                       'before the flags from the environment (the compdb '
+                       'emitter and the documented precedence say the '
+                       'opposite)')
 
 
 def option_order(ctx):
